@@ -5,6 +5,13 @@ LEVEL = "other"   # part of the statement is proved, the rest is decided on the 
 FAMILY = "classic"
 
 
+MANIFEST = {
+ "level": 'other',
+ "text": "Proved for every tree and every limit about the Gallina model of ser.rs/write_atom.rs: node_to_bytes_limit t L = Ok (ser t) when |ser t| <= L and Err OutOfMemory otherwise, wherever the limit is crossed (marker, prefix or body), and the same law for the LimitedWriter under any sequence of write_all chunks. The back-reference serializer's chunk sequence is not modelled; node_to_bytes_backrefs_limit is decided on the implementation for every limit 0..len+1 of generated trees. Model vs implementation on every limit of small trees and windows around chunk boundaries of larger ones.",
+ "note": vlib.NOTE_COMMON + " Level 'other' because the back-reference serializer half of the statement is explored, not proved.",
+ "technique": 'Coq proof (fuelled explicit-stack loop = recursive ser under a limit) + model/implementation differential run over all limits + implementation search for the back-reference serializer',
+}
+
 def run(ctx):
     r = ctx.rng
     ctx.rule = ("for each generated tree every limit 0..len+1 (all of them for small trees, a window around every chunk "
